@@ -185,7 +185,10 @@ impl Datastore for ClnDatastore {
                 ),
                 string: Some(info),
                 hex: None,
-                mode: Some(DatastoreMode::MUST_REPLACE),
+                // The attempt record may be missing if the node stopped between
+                // the two writes of `add_payment_attempt`. Don't require it
+                // to exist, otherwise the payment state can never be freed.
+                mode: Some(DatastoreMode::CREATE_OR_REPLACE),
                 generation: None,
             })
             .await?;
